@@ -396,6 +396,9 @@ func (e *Engine) globalStructConst(st *State, g *ssa.Global) (Value, bool) {
 //         table <var>.<Field> ... / table <var>#len / table <var>#<i>   (struct field, list length, list element)
 //         table <var>@<argIndex>  (i-th constant argument of a call-valued entry; string results indexed by 2nd param)
 func (e *Engine) tableDefineFun(sp *SpecFunc) string {
+	if strings.HasPrefix(sp.Table, "literal:") {
+		return e.literalDefineFun(sp)
+	}
 	name := sp.Table
 	sel := ""
 	if i := strings.IndexAny(name, ".#@"); i >= 0 {
@@ -492,4 +495,34 @@ func (e *Engine) tableDefineFun(sp *SpecFunc) string {
 func structOf(t types.Type) *types.Struct {
 	s, _ := t.Underlying().(*types.Struct)
 	return s
+}
+
+// literalDefineFun: a 0-ary string spec function whose value is the constant a
+// local variable of a function is initialised from (e.g. []rune("ACDE...")).
+func (e *Engine) literalDefineFun(sp *SpecFunc) string {
+	varName := strings.TrimPrefix(sp.Table, "literal:")
+	fn := e.lookupFunc(sp.Pkg + "." + sp.TableIn)
+	if fn == nil {
+		panic(cevalErr{"literal " + varName + ": no function " + sp.TableIn})
+	}
+	for _, b := range fn.Blocks {
+		for _, ins := range b.Instrs {
+			st, ok := ins.(*ssa.Store)
+			if !ok {
+				continue
+			}
+			al, ok := st.Addr.(*ssa.Alloc)
+			if !ok || al.Comment != varName {
+				continue
+			}
+			tv := miniEval(st.Val, fn, 0)
+			if tv != nil && tv.Const != nil && tv.Const.Value != nil && tv.Const.Value.Kind() == constant.String {
+				e.mu.Lock()
+				e.used["literal read from code: "+varName+" in "+sp.TableIn] = true
+				e.mu.Unlock()
+				return fmt.Sprintf("(define-fun %s () Str %s)\n", sp.Name, e.literal(constant.StringVal(tv.Const.Value)))
+			}
+		}
+	}
+	panic(cevalErr{"literal " + varName + " in " + sp.TableIn + ": not initialised from a string constant"})
 }
